@@ -936,10 +936,12 @@ func c10EncodeGuards(c *Ctx, a *sketchAnchors) {
 	}
 	st := c.P.NamedType(pkgStat, "SummaryStatistics")
 	minF, maxF := c.getterField(st, "Min"), c.getterField(st, "Max")
+	cntFld := c.getterField(st, "Count")
 	ps, _ := exec(c, f, nil, 1)
 	for _, side := range []struct{ flag, fld, inf string }{{"FlagMin", minF, "1"}, {"FlagMax", maxF, "-1"}} {
 		n := 0
 		bad := ""
+		skipBad := ""
 		for _, p := range ps {
 			wrote := false
 			var payload *Term
@@ -955,10 +957,6 @@ func c10EncodeGuards(c *Ctx, a *sketchAnchors) {
 					}
 				}
 			}
-			if !wrote {
-				continue
-			}
-			n++
 			isVal := func(t *Term) bool {
 				t = t.unver()
 				return t.Op == "field" && t.Sym == side.fld || isMethodCall(t, strings.TrimPrefix(side.flag, "Flag"))
@@ -966,6 +964,35 @@ func c10EncodeGuards(c *Ctx, a *sketchAnchors) {
 			isInf := func(t *Term) bool {
 				return t.Op == "call" && t.Sym == "math.Inf" && len(t.Args) == 1 && t.Args[0].isConst(side.inf)
 			}
+			if !wrote {
+				// … and it is skipped ONLY then: a real extreme that is not written (0, say) comes back as the reader's
+				// default. Evidence on the path: the value equals the sentinel, or the statistics hold no weight (an empty
+				// object holds the sentinels: C10-D3)
+				isSentinel := false
+				for _, cd := range p.Conds {
+					t := cd.Term
+					if (t.isBin("!=") || t.isBin("==")) && len(t.Args) == 2 {
+						if (isVal(t.Args[0]) && isInf(t.Args[1]) || isVal(t.Args[1]) && isInf(t.Args[0])) && cd.Taken == t.isBin("==") {
+							isSentinel = true
+						}
+						isCnt := func(x *Term) bool {
+							x = x.unver()
+							return isMethodCall(x, "Count") || x.Op == "field" && x.Sym == cntFld
+						}
+						if (isCnt(t.Args[0]) && t.Args[1].isConst("0") || isCnt(t.Args[1]) && t.Args[0].isConst("0")) && cd.Taken == t.isBin("==") {
+							isSentinel = true
+						}
+					}
+					if isMethodCall(t, "IsEmpty") && cd.Taken {
+						isSentinel = true
+					}
+				}
+				if !isSentinel {
+					skipBad = "the " + side.flag + " block is skipped on a path that has not established the empty sentinel Inf(" + side.inf + "): [" + p.String() + "]"
+				}
+				continue
+			}
+			n++
 			guarded := false
 			for _, cd := range p.Conds {
 				t := cd.Term
@@ -982,6 +1009,8 @@ func c10EncodeGuards(c *Ctx, a *sketchAnchors) {
 		}
 		c.R.check(bad == "" && n > 0, rule, shortFn(f)+"/"+side.flag+"/sentinel-excluded", shortFn(f), c.fpos(f),
 			"the "+side.flag+" block is written only when the value is not the empty sentinel, and carries that accumulator", firstNonEmpty(bad, fmt.Sprintf("%d writing path(s)", n)))
+		c.R.check(skipBad == "", rule, shortFn(f)+"/"+side.flag+"/skipped-only-for-the-sentinel", shortFn(f), c.fpos(f),
+			"the "+side.flag+" block is left out only when the value is the empty sentinel (or the statistics hold no weight): every real extreme, 0 included, is written", firstNonEmpty(skipBad, "ok"))
 	}
 }
 
